@@ -714,3 +714,22 @@ Theorem C12_backward_example_hypotheses :
   /\ is_term P_ex 0 = true /\ vlab P_ex 0 /\ vidx P_ex 0 [1; 2] /\ pfun pe_ex 0 < length (g_labels P_ex').
 Proof. exact wt_ex_hyps. Qed.
 Print Assumptions C12_backward_example_hypotheses.
+
+(** * 14. order of the components, recursive components included *)
+(** any two dependency-respecting orders of the component list (components of any size, recursive
+    or not), each component solved exactly (its own least fixed point given the earlier results:
+    [exact_run], C02), give the same value at every nonterminal and cell; [mu] is the global least
+    fixed point (whose existence is what C02's solvers establish).  The hypotheses are satisfiable:
+    C02's examples [ex_is_lfp], [ex_dep_ordered] (Proofs/Kleene_examples.v) *)
+Theorem C12_scc_order_irrelevant_exact :
+  forall R (o : sr_ops R), sr_ring o -> sr_ordered o ->
+  forall G (w mu : env (R:=R)) order order' acc acc' final final',
+    wf_grammar G = true ->
+    is_lfp_on o G (nonterminals G) (step o G w) mu ->
+    exact_run o G w order acc final -> Kleene_scc.dep_ordered G [] order ->
+    (forall X, In X (nonterminals G) -> In X (concat order)) ->
+    exact_run o G w order' acc' final' -> Kleene_scc.dep_ordered G [] order' ->
+    (forall X, In X (nonterminals G) -> In X (concat order')) ->
+    forall X xi, In X (nonterminals G) -> In xi (all_assts (lshape G X)) -> final' X xi = final X xi.
+Proof. exact (@scc_order_irrelevant_exact). Qed.
+Print Assumptions C12_scc_order_irrelevant_exact.
